@@ -1959,6 +1959,14 @@ func (c *DefaultCtx) Reset(fctx *fasthttp.RequestCtx) {
 	c.methodInt = c.app.methodInt(utils.UnsafeString(fctx.Request.Header.Method()))
 	// Attach *fasthttp.RequestCtx to ctx
 	c.fasthttp = fctx
+	// Req() and Res() must refer to this context: a DefaultCtx copied into a custom context
+	// (DefaultCtx: *NewDefaultCtx(app)) still carries the helpers of the original
+	if c.req == nil || c.req.ctx != c {
+		c.req = &DefaultReq{ctx: c}
+	}
+	if c.res == nil || c.res.ctx != c {
+		c.res = &DefaultRes{ctx: c}
+	}
 	// reset base uri
 	c.baseURI = ""
 	// Prettify path
